@@ -303,6 +303,9 @@ def translate(hist, obs, ext=False):
                                           cfaults(store=fs))
             out = "(RNodes %s)" % clist(cstr(n) for n in o.get("nodes") or []) if res == "ok" else "RErr"
         elif k == "bind":
+            if res == "skipped":
+                prev = d
+                continue
             lp = None
             for p in (prev or {"lister": []})["lister"]:
                 if p[0] == op["ns"] and p[1] == op["name"]:
@@ -341,7 +344,7 @@ def translate(hist, obs, ext=False):
                 if not c[3]:
                     fcloud = i
             fbind = 1 if "injected" in (o.get("bindlog") or []) else 0
-            t = "(PBind %s %s %s %s %s %s)" % (cstr(op["ns"]), cstr(op["name"]), cstr(o.get("uid", "")), cstr(op["node"]),
+            t = "(PBind %s %s %s %s %s %s)" % (cstr(op["ns"]), cstr(op["name"]), cstr(o.get("uid", "")), cstr(o.get("node", op["node"])),
                                               coracle(first, choice), cfaults(fstore, fupd, fcloud, fbind))
             out = "(RIps %s)" % clist(cN(x) for x in o.get("ips") or []) if res == "ok" else "RErr"
         elif k == "event":
